@@ -217,7 +217,7 @@ CLAIMED = {
         "discarded (see C10).",
         "DESIGN.md section 6 / C11"),
     "C12": (
-        "Coq proof of the generic key level (aliases interchangeable for any schema and dictionary; the nine synonym tables well formed; every written key read) and of the text round trips of dictionary values (quantities, equations) + round-trip correspondence of physical content through dict / JSON text / files / multi-file layouts / aliases / omitted defaults",
+        "Coq proofs at three levels - keys (generic in the schema; thirteen key tables translated from the source on every run with five obligations), value text (quantities, equations), objects (writer / reader models of all nine kinds of objects with round-trip theorems) - + correspondence: modelled writers and readers against the code's dictionary for dictionary, and physical content through dict / JSON text / files / multi-file layouts / aliases / omitted defaults",
         "Theorems (Props/C12.v, closed under the global context): for any schema (list of synonym lists) and any dictionary, renaming a key "
         "into another key that is a synonym of exactly the same fields changes neither acceptance nor the value read for any field; the "
         "key tables of the thirteen readers (twelve *_from_dict and load_rdtrajectory) are pairwise disjoint, every key emitted by a writer is the primary key of a field of its "
